@@ -345,6 +345,18 @@ def _nests():
 
 NESTS = _nests()
 
+# accepted scripts that must be executable: commands to other lights inside a matrix block (they
+# load the NAME register; the block's result goes to the light named in the `set`).  The second
+# and third were aborted with AttributeError in Machine._color_matrix_light before 9355d2b.
+MATRIX_NAME = [
+    'hue 10 set "Candle" begin on "Top" stage row 0 end',
+    'set "light_1" begin set "Candle" zone 4 4 stage column 1 row 1 1 end',
+    'brightness 8 set "Top" begin set "Candle" zone 4 4 assign x1 61.25 stage column 1 row 1 1 end '
+    'assign x2 81 print x2',
+    'assign who "Top" set who begin assign who "Candle" stage row 0 end',
+    'define f begin set "Top" begin stage row 0 end end set "Candle" begin stage row 1 f end',
+]
+
 
 def _scope_cases(max_depth=4):
     """`break` at every position of every nesting (up to four levels) of loop / if / routine
@@ -461,7 +473,7 @@ def main():
             inputs.append(('noise', noise(rng)))
     for name, text in RULES:
         inputs.append(('rule:' + name, text))
-    for text in NESTS:
+    for text in NESTS + MATRIX_NAME:
         inputs.append(('valid', text))
     for text, expect, _label in SCOPES:
         inputs.append(('valid' if expect == 'accept' else 'rule:break-outside-loop', text))
